@@ -142,7 +142,7 @@ def judge_value(ctx, case):
         if c in ('uint', 'int', 'uintbe', 'intbe', 'uintle', 'intle', 'float', 'floatle') and K.valid_length(c, n):
             routes['prop'] = ('assign-sized', lambda o: setattr(o, name, pv))
         elif c in ('hex', 'oct', 'bin') and isinstance(pv, str):
-            digits_ok = all(ch in {'hex': '0123456789abcdefABCDEF', 'oct': '01234567', 'bin': '01'}[c] + ' _' for ch in pv)
+            digits_ok = all(ch in {'hex': '0123456789abcdef', 'oct': '01234567', 'bin': '01'}[c] for ch in K.tidy(pv, {'hex': '0x', 'oct': '0o', 'bin': '0b'}[c]))
             routes['prop'] = ('assign-digits', digits_ok)
         if (ok or reason == 'value') and n != 0:
             routes['Array-set'] = ('array', None)
@@ -371,12 +371,12 @@ def run(ctx):
         for c in DIRECTED:
             ctx.run_case(judge_value if c['kind'] == 'value' else judge_window, dict(c))
         endian_prop_nolength(ctx)
-    for i in range(ctx.scale(6000, 200000)):
+    for i in range(ctx.scale(48000, 400000)):
         c = gen_case(ctx)
         ctx.run_case(judge_value, c)
         if i % 999 == 0:
             ctx.sample(c)
-    for i in range(ctx.scale(4000, 100000)):
+    for i in range(ctx.scale(32000, 200000)):
         c = gen_window(ctx)
         ctx.run_case(judge_window, c)
         if i % 999 == 0:
